@@ -459,5 +459,38 @@ def convert_sequencing():
     return guarded("convert/statement-order", run)
 
 
+def relation_spellings():
+    """the relation that decides a branch is the relation the source spells: `=<` is <=, `=>` is >=, in every IF form, for numeric and
+    string operands, whichever operand is on which side"""
+    def run():
+        import re
+        from coco.b09.compiler import convert
+        res = []
+        meaning = {"=": "EQ", "<>": "NE", "<": "LT", ">": "GT", "<=": "LE", "=<": "LE", ">=": "GE", "=>": "GE"}
+        frames = {"IF..THEN line": "10 IF %s THEN 10", "IF..THEN statement": "10 IF %s THEN C=1", "IF..THEN..ELSE": "10 IF %s THEN C=1 ELSE C=2",
+                  "ELSE IF condition": "10 IF Q=1 THEN C=1 ELSE IF %s THEN C=2 ELSE C=3", "conjunction": "10 IF Q=1 AND %s THEN 10", "negation": "10 IF NOT(%s) THEN 10"}
+        for fname, frame in frames.items():
+            for a, b in (("A", "B"), ("A$", "B$"), ("A", "3"), ('A$', '"x"'), ("A(1)", "B")):
+                bad = []
+                for op, m in meaning.items():
+                    src = frame % (a + op + b)
+                    try:
+                        text = convert(src + "\n", add_standard_prefix=False)
+                    except Exception as e:  # noqa
+                        bad.append("%s: %s" % (src, type(e).__name__))
+                        continue
+                    lhs = {"A": "A", "A$": r"A\$", "A(1)": r"arr_A\(1\.0\)"}[a]
+                    found = re.search(lhs + r" (<>|<=|=<|>=|=>|=|<|>) ", text)
+                    got = meaning.get(found.group(1)) if found else None
+                    if got != m:
+                        bad.append("%s -> %s" % (src, text.strip().split("\n")[0][:70]))
+                res.append(ob("relations/%s/%s?%s" % (fname, a, b), not bad, "the emitted relation means what the source relation means (8 spellings)", bad[:3] or "8 spellings"))
+        return res
+    return guarded("relations", run)
+
+
 def obligations():
-    return next_patcher() + fornext_count() + if_semantics() + if_parse_forms() + condition_coercion() + nested_if_semantics() + independence_shared_with_c05() + jumps_land() + prog_sequencing() + convert_sequencing()
+    # a branch taken before a loop ran reads the loop variable's start value: the initialiser covers it (shared with C09)
+    from tx.p_c05 import share
+    from tx.p_c09 import initializer_positions
+    return share("start-values/", initializer_positions()) + relation_spellings() + next_patcher() + fornext_count() + if_semantics() + if_parse_forms() + condition_coercion() + nested_if_semantics() + independence_shared_with_c05() + jumps_land() + prog_sequencing() + convert_sequencing()
